@@ -1,5 +1,5 @@
 
-// ---------------- tape semantics (prototype: subset of opcodes) ----------------
+// ---------------- tape semantics ----------------
 uninterp spec fn un_sem(tag: int, a: f32) -> f32;
 uninterp spec fn bin_sem(tag: int, a: f32, b: f32) -> f32;
 
@@ -8,7 +8,7 @@ type Env = Map<int, f32>;
 type FE = spec_fn(Env, Seq<f32>) -> Env;
 type FO = spec_fn(Map<int, f32>, Env, Seq<f32>) -> Map<int, f32>;
 
-// (reg_step / ssa_fe / ssa_fo are generated: gen_sem.rs)
+// (reg_step / ssa_fe / ssa_fo / ssa_kind / op_ok are generated from op.rs: gen_sem.py)
 /// run ops[lo..hi) from hi-1 down to lo (tapes are stored in reverse evaluation order)
 spec fn reg_run_rev(ops: Seq<RegOp>, lo: int, hi: int, st: St, inp: Seq<f32>) -> St
     decreases hi - lo
@@ -263,18 +263,6 @@ proof fn lemma_step_def(a_old: Seq<u32>, tape: Seq<RegOp>, k: int, rx: u8, out: 
     }
 }
 
-impl<const N: usize> Lru<N> {
-    proof fn lemma_order_props(&self)
-        requires self.wf()
-        ensures self.order().len() == N, 1 <= N <= 255,
-            forall|k: int| 0 <= k < N ==> (#[trigger] self.order()[k] as int) < N,
-            forall|j: int, k: int| 0 <= j < k < N ==> self.order()[j] != self.order()[k],
-            self.order()[0] == self.head,
-    {
-        let o = self.order();
-        assert(self.wf_with(o));
-    }
-}
 proof fn lemma_pop_is_poke(o: Seq<u8>, n: int)
     requires o.len() == n, n >= 1, forall|j: int, k: int| 0 <= j < k < n ==> o[j] != o[k],
     ensures seq![o[n - 1]] + o.subrange(0, n - 1) == poke_order(o, o[n - 1])
